@@ -3,7 +3,9 @@ M: MultiKnee.tla for every detector/gate oracle (n<=9): termination, pop bound, 
    result = MKSet(0,n); negative instance: a detector that may answer the last index.
 G: every recursion tree (n<=7) replayed through the PUBLIC wrapper multi_knee.multi_knee with a synthetic detector
    that answers from the behaviour's table (reaches answers 0, len-2, None that real detectors seldom give).
-T: the five bundled detectors on real curves with K/C tables from their own single-knee entry points."""
+T: the five bundled detectors on real curves with K/C tables from their own single-knee entry points.
+   scale: the same on production-size curves (257 .. 10^5 points, thousands of knees, thousands of ranges pending at once),
+   sparse tables with position hints judged by Trace_MultiKneeScale."""
 import numpy as np
 
 from harness import curves, monitor, numeric, par
@@ -143,6 +145,344 @@ def _record_long(item):
     return case, {"long": [cid, seed, n, det, t1, t2] + ([xoff] if xoff else []), "detector": det, "t1": t1, "t2": t2, "error": val if out != "returned" else None}
 
 
+# ------------------------------------------------------------------ T at production size ("scale" family)
+SC_FAST = ("curvature", "dfdt")           # vectorised single-knee detectors: linear numpy work per slice
+SC_TRANSFORMS = ("", "rev", "neg", "revneg")
+
+
+SC_PATTERNS = ((1,), (4, 1), (9, 3, 1), (8, 1, 2, 1))
+
+
+def _sc_cpl(n, corners, pat):
+    """convex increasing piecewise-linear curve, x = 0..n-1, y >= 1: `corners` corners at equal distances whose slope increments
+    repeat SC_PATTERNS[pat] / 16.  The curvature of equally sharp corners fades to the right, so a curvature-like detector
+    picks the sharpest class from left to right - one pending range per pick - and every pending range still holds the
+    blunter corners of the pattern (pattern 0: all corners alike, the pending ranges are straight)."""
+    corners = max(1, min(corners, n // 3))
+    w = n // (corners + 1)
+    inc = np.zeros(n)
+    p = SC_PATTERNS[pat]
+    for c in range(1, corners + 1):
+        inc[c * w] = p[(c - 1) % len(p)] / 16.0
+    slope = 1.0 / 64 + np.cumsum(inc)                 # slope of the unit interval that ENDS at i (dyadic, exact)
+    return 1.0 + np.concatenate([[0.0], np.cumsum(slope[:-1])])
+
+
+def _sc_curve(spec):
+    """spec = [shape, n, a, b, transform, pattern] -> C-contiguous float64 (n, 2) array, x = 0..n-1, y >= 0 (deterministic).
+    shapes: cpl  _sc_cpl(n, a, pattern): thousands of knees, one pending range per knee of the sharpest class;
+            tail a straight prefix followed by _sc_cpl(b, a, pattern) (deep pending stack and knee indices far beyond 2^15 / 2^16
+                 at the cost of the tail only);
+            rcpl convex piecewise linear with `a` corners of random sharpness and small slopes (balanced recursion tree);
+            stair / mrc / zig / spk: harness.scale staircase(n, a, Random(b)) / mrc(n, Random(b), a) / zigzag / spikes(n, a).
+    transform: rev = ordinates reversed (x stays increasing), neg = max - y (concave), revneg = both."""
+    import random
+    from harness import scale
+    kind, n, a, b, tr, pat = spec
+    if kind == "cpl":
+        y = _sc_cpl(n, a, pat)
+    elif kind == "tail":
+        m = min(b, n - 8)
+        y = np.concatenate([1.0 + np.arange(n - m, dtype=float) / 128.0, (n - m) / 128.0 + _sc_cpl(m, a, pat)])
+    elif kind == "rcpl":
+        rng = random.Random(b)
+        corners = max(1, min(a, n // 3))
+        pos = sorted(rng.sample(range(1, n - 1), corners))
+        inc = np.zeros(n)
+        for p in pos:
+            inc[p] = rng.randrange(1, 4096) / 2.0 ** 22      # dyadic slope increments, the slope stays below 1/64 + 2^-10 corners
+        slope = 1.0 / 64 + np.cumsum(inc)
+        y = 1.0 + np.concatenate([[0.0], np.cumsum(slope[:-1])])
+    elif kind == "stair":
+        y = scale.staircase(n, a, random.Random(b))[:, 1]
+    elif kind == "mrc":
+        y = scale.mrc(n, random.Random(b), a)[:, 1]
+    elif kind == "zig":
+        y = scale.zigzag(n)[:, 1]
+    elif kind == "spk":
+        y = scale.spikes(n, a)[:, 1]
+    else:
+        raise ValueError(kind)
+    y = np.array(y, dtype=float)
+    if "rev" in tr:
+        y = y[::-1].copy()
+    if "neg" in tr:
+        y = y.max() - y
+    return np.ascontiguousarray(np.column_stack([np.arange(n, dtype=float), y]))
+
+
+def _sc_smape(pt):
+    """endpoint-line SMAPE of a slice (the definition; fsum for short slices, pairwise numpy sum for long ones)."""
+    import math
+    x, y = pt[:, 0], pt[:, 1]
+    m = (y[0] - y[-1]) / (x[0] - x[-1])
+    h = x * m + (y[0] - m * x[0])
+    t = 2.0 * np.abs(h - y) / (np.abs(y) + np.abs(h) + 1e-16)
+    return (math.fsum(t) if len(pt) <= 2048 else float(np.sum(t))) / len(pt)
+
+
+def _sc_gate(pt, t1):
+    """True / False / None (within rounding noise of t1: pins nothing).  The noise band of the small inputs (rel 1e-9) is widened
+    by 4 n eps for the long sums; t1 <= 0 is never undercut by a mean of non-negative terms."""
+    if t1 <= 0.0:
+        return True
+    v = _sc_smape(pt)
+    if not np.isfinite(v) or numeric.close(v, t1, rel=1e-9 + 4.0 * len(pt) * 2.3e-16, ab=1e-15):
+        return None
+    return bool(v >= t1)
+
+
+def _sc_t1(P, mod, t1spec):
+    """t1spec: a float, or ["tie", level, sign]: the SMAPE of the whole curve (level 0) or of the right / left part after the
+    detector's first knee (level 1 / 2), moved by 2^-20 relative (a thousand noise bands) below (sign -1: that slice is just
+    curved) or above (+1: just straight) - a gate evaluated on a sample / in blocks / in float32 on a LONG slice decides
+    differently there."""
+    if not isinstance(t1spec, (list, tuple)):
+        return float(t1spec)
+    _, level, sign = t1spec
+    pt = P
+    if level:
+        o, k, _ = monitor.call(mod.knee, (P,), budget=monitor.quad(len(P), 400), wall=900)
+        if o == "returned" and k is not None and 0 <= int(k) <= len(P) - 2:
+            k = int(k)
+            pt = P[k + 1:] if level == 1 else P[:k + 1]
+    if len(pt) < 3:
+        pt = P
+    v = _sc_smape(pt)
+    if not np.isfinite(v) or v <= 0.0:
+        return 0.001
+    return float(v * (1.0 + sign * 2.0 ** -20))
+
+
+def _sc_cost(det, length):
+    """estimated microseconds of one single-knee call on `length` points (vectorised / python loop per point / L-method)"""
+    if det in SC_FAST:
+        return 20.0 + 0.1 * length
+    if det == "lmethod":
+        return 1.3 * length * (20.0 + 0.01 * length)
+    return 30.0 + 3.0 * length
+
+
+def _sc_table(P, mod, det, t1, t2, cap, work):
+    """the oracle: the slices the property's decomposition visits, each with the gate (definition of SMAPE) and the detector's
+    own single-knee answer, plus the positions of the two child entries.  Returns None when the table would need more than
+    `cap` entries or more than `work` estimated microseconds of single-knee calls (the caller then raises t1)."""
+    n = len(P)
+    tab = []
+    todo = [(0, n, 0, 0, 1)]
+    pending = unknown = depth = 0
+    spent = 0.0
+    while todo:
+        pending = max(pending, len(todo))
+        l, r, pj, side, lev = todo.pop()
+        if r - l <= t2:
+            continue
+        if len(tab) >= cap or spent > work:
+            return None
+        tab.append([l, r, -2, True, 0, 0, pj])
+        depth = max(depth, lev)
+        j = len(tab)
+        if pj:
+            tab[pj - 1][4 + side] = j
+        g = _sc_gate(P[l:r], t1)
+        if g is None:                # within noise of t1: pins nothing, the decomposition is Unknown (not judged) below
+            unknown += 1
+            continue
+        if not g:
+            tab[-1][2:4] = [-1, False]
+            continue
+        spent += _sc_cost(det, r - l)
+        o2, v2, _ = monitor.call(mod.knee, (P[l:r],), budget=monitor.quad(r - l, 400), wall=1800)
+        if o2 != "returned":
+            unknown += 1
+            continue
+        if v2 is None:
+            tab[-1][2] = -1
+            continue
+        k = int(v2)
+        if not 0 <= k <= r - l - 2:  # the detector left its own range on a sub-slice: nothing is pinned below it
+            unknown += 1
+            continue
+        tab[-1][2] = k
+        todo += [(l, l + k + 1, j, 0, lev + 1), (l + k + 1, r, j, 1, lev + 1)]
+    return tab, pending, unknown, depth
+
+
+def _record_scale(item):
+    """One production-size call, its sparse oracle table with position hints (Trace_MultiKneeScale) and what was covered.
+    The oracle runs first: its work predicts the work of the call (the same single-knee calls), so an input whose recursion
+    turns out too expensive for the tier is replaced by the same curve with a thirty times larger t1 (deterministically)."""
+    cid, spec, det, t1spec, t2, cap, work = item
+    P = _sc_curve(spec)
+    n = len(P)
+    mod = _mod(det)
+    t1 = _sc_t1(P, mod, t1spec)
+    raised = 0
+    while True:
+        t = _sc_table(P, mod, det, t1, t2, cap, work)
+        if t is not None or raised >= 8:
+            break
+        t1 = max(30.0 * t1, 1e-6)
+        raised += 1
+    tab, pending, unknown, depth = t if t is not None else ([], 0, 1, 0)
+    out, val, counts = monitor.call(mod.multi_knee, (P, t1, t2), budget=monitor.quad(n, 400), wall=1800, per={"multi_knee": 8 * n + 64})
+    case = {"id": cid, "n": n, "t2": t2, "outcome": out, "pops": counts.get("multi_knee", 0), "exempt_interior": det == "menger",
+            "result": [int(v) for v in np.asarray(val).tolist()] if out == "returned" else [],
+            # an Unknown entry leaves the decomposition unjudged: no table is sent then (the other clauses are still judged);
+            # cross: shallow trees are ALSO judged by the recursive operators of the specification (quadratic in the depth)
+            "tab": tab if unknown == 0 else [], "cross": bool(depth <= 250 and len(tab) <= 3000)}
+    exp = sorted(e[0] + e[2] for e in tab if e[3] and e[2] >= 0)
+    meta = {"scale": list(item), "detector": det, "t1": t1, "t1_raised": raised, "t2": t2, "n": n, "shape": spec[0] + ("-" + spec[4] if spec[4] else ""),
+            "entries": len(tab), "pending": pending, "depth": depth, "cross": case["cross"], "judged": unknown == 0 and out == "returned", "knees": len(case["result"]),
+            "error": val if out != "returned" else None}
+    if unknown == 0 and out == "returned" and case["result"] != exp:
+        got = set(case["result"])
+        meta["diff"] = {"returned": len(got), "expected": len(exp), "missing": [v for v in exp if v not in got][:8],
+                        "extra": sorted(got - set(exp))[:8]}
+    return case, meta
+
+
+def _sc_corners(rng, det, n, work, cap, balanced):
+    """how many corners a shape gets: a chain shape (knees picked from one end) costs about corners x cost(n / 2), a balanced one
+    log2(corners) x cost(n); aim at half of the work the tier allows for one call."""
+    import math
+    if balanced:
+        levels = 0.5 * work / _sc_cost(det, n)
+        c = 2.0 ** min(levels, 20.0)
+    else:
+        c = 0.5 * work / _sc_cost(det, n / 2.0)
+    c = int(max(3, min(c, n // 3, cap // 3)))
+    return rng.randrange(max(3, (3 * c) // 4), c + 1)
+
+
+def _sc_items(ctx):
+    from harness import scale
+    rng = ctx.rng
+    q = ctx.quick
+    cap = 8000 if q else 40000                    # table entries per case (JSON of a case: about 36 bytes per entry)
+    work = 1.5e6 if q else 1.2e7                  # estimated microseconds of single-knee calls per case
+    items = []
+
+    def add(spec, det, t1spec, t2, w=work):
+        items.append(("S%d-%s-%s%d" % (len(items), det, spec[0], spec[1]), spec, det, t1spec, t2, cap, w))
+
+    # anchors (every seed): thousands of ranges pending at once that still hold knees, knee indices beyond 2^15 / 2^16,
+    # thousands of knees
+    add(["cpl", 12005 + rng.randrange(0, 40), rng.randrange(3000, 3600), 0, "", 1], "curvature", rng.choice([0.001, 1e-5]), 3, 5e6)
+    add(["tail", 70001 + rng.randrange(0, 999), 3000, 9000 + rng.randrange(0, 9), "", 1], "curvature", rng.choice([1e-6, 1e-5]), 3, 5e6)
+    add(["stair", 4099 + rng.randrange(0, 40), 200, rng.randrange(1 << 20), "", 0], "dfdt", 0.001, 3, 5e6)
+    add(["cpl", 1290 + rng.randrange(0, 40), 330, 0, "", 1], "menger", 1e-5, 4, 5e6)
+    add(["zig", 4097 + rng.randrange(0, 40), 0, 0, "", 0], "curvature", 0.001, 3, 5e6)
+    if not q:
+        add(["cpl", 65537 + rng.randrange(0, 99), 13000, 0, "", 1], "curvature", 1e-6, 3, 8e7)
+        add(["tail", 100001, 13000, 40000, "", 2], "curvature", 0.0, 3, 8e7)
+        add(["cpl", 6007, 1900, 0, "", 1], "menger", 1e-5, 4, 8e7)
+        add(["stair", 32771, 1500, 7, "", 0], "dfdt", 0.001, 3, 8e7)
+    # the general family: detector x size (just above a typical threshold) x shape x transform x t1 x t2
+    for det, t2min in DETECTORS.items():
+        if det in SC_FAST:
+            ns = scale.sizes(ctx, lo=257, hi=110000, k_quick=6, k_thorough=12)
+        elif det == "lmethod":
+            ns = scale.sizes(ctx, lo=257, hi=1300 if q else 2200, k_quick=4, k_thorough=5)
+        else:
+            ns = scale.sizes(ctx, lo=257, hi=70000 if q else 110000, k_quick=6, k_thorough=10)
+        for n in ns:
+            for rep in range(2 if det in SC_FAST or not q else 1):
+                kind = rng.choice(["cpl", "cpl", "rcpl", "rcpl", "stair", "mrc", "tail", "zig", "spk"])
+                if kind in ("zig", "spk") and _sc_cost(det, n / 2.0) * n / 2.0 > work:      # a knee at every other point
+                    kind = rng.choice(["cpl", "rcpl"])
+                bal = kind in ("rcpl", "mrc", "stair")
+                c = _sc_corners(rng, det, n, work, cap, bal)
+                if kind == "mrc":
+                    c = min(c, 40)
+                spec = [kind, n, c, rng.randrange(1 << 20), rng.choice(SC_TRANSFORMS), rng.randrange(len(SC_PATTERNS))]
+                if kind == "tail":
+                    spec[3] = max(16, min(n - 8, 4 * c + rng.randrange(8, 64)))
+                    spec[2] = _sc_corners(rng, det, spec[3], work, cap, False)
+                if kind == "spk":
+                    spec[2] = rng.choice([4, 5, 8])
+                t1spec = rng.choice([0.0, 1e-5, 1e-5, 0.001, 0.001, 0.01, 0.05])
+                if rng.random() < 0.3:
+                    t1spec = ["tie", rng.randrange(3), rng.choice([-1, 1])]
+                if kind == "mrc" and n > 4000 and not isinstance(t1spec, list):
+                    t1spec = rng.choice([0.01, 0.05])      # the quantised texture of a long miss-ratio curve is one tiny step per point
+                t2 = rng.choice([t2min, t2min, t2min, rng.randint(t2min, 6), 17, 130])
+                add(spec, det, t1spec, t2)
+    return items
+
+
+def _sc_static(cross=True):
+    """a 7-point case for the binding self-test: knee 3 on the whole curve, then knee 1 on [4,7) (t2 = 2)."""
+    return {"id": "static", "n": 7, "t2": 2, "outcome": "returned", "pops": 5, "exempt_interior": False, "result": [3, 5], "cross": cross,
+            "tab": [[0, 7, 3, True, 2, 3, 0], [0, 4, -1, False, 0, 0, 1], [4, 7, 1, True, 0, 0, 1]]}
+
+
+def _sc_selftests():
+    out = [(_sc_static(), "ok"), (_sc_static(False), "ok")]
+    for cross in (True, False):              # the recursive operators and the flat tree form
+        c = _sc_static(cross); c["result"] = [3]; out.append((c, "decomposition"))         # a knee of a pending range is missing
+        c = _sc_static(cross); c["result"] = [3, 4, 5]; out.append((c, "decomposition"))
+        c = _sc_static(cross); c["tab"][0][2:4] = [-1, False]; out.append((c, "empty-gate"))
+        c = _sc_static(cross); c["tab"][0][5] = 2; c["result"] = [3]; out.append((c, "ok"))    # wrong hint: Unknown, never a wrong verdict
+        c = _sc_static(cross); c["tab"][2][2] = -2; c["result"] = [3]; out.append((c, "ok"))   # unknown answer: not judged
+        c = _sc_static(cross); c["tab"][2][6] = 2; c["result"] = [3]; out.append((c, "decomposition"))   # wrong parent: not a Tree, judged by MKHint
+        c = _sc_static(cross); c["tab"] = []; c["result"] = [2]; out.append((c, "ok"))         # no table: not judged
+    c = _sc_static(); c["result"] = [5, 3]; out.append((c, "increasing"))
+    c = _sc_static(); c["result"] = [3, 6]; out.append((c, "range"))
+    c = _sc_static(); c["tab"] = [[0, 7, 0, True, 0, 0, 0]]; c["result"] = [0]; c["exempt_interior"] = True; out.append((c, "ok"))   # the entry of [1,7) is missing: not judged
+    c = _sc_static(); c["t2"] = 5; c["tab"] = [[0, 7, 0, True, 0, 2, 0], [1, 7, -1, False, 0, 0, 1]]; c["result"] = [0]; out.append((c, "interior"))
+    c = _sc_static(); c["outcome"] = "budget"; out.append((c, "terminates"))
+    c = _sc_static(); c["outcome"] = "raised:IndexError"; out.append((c, "returns"))
+    c = _sc_static(); c["pops"] = 40; out.append((c, "step-bound"))
+    return out
+
+
+def _run_scale(ctx):
+    import time
+    t0 = time.time()
+    items = _sc_items(ctx)
+    rec = par.pmap(_record_scale, items, chunksize=1)
+    t_rec = time.time() - t0
+    order = sorted(range(len(rec)), key=lambda k: -rec[k][1]["entries"])
+    lanes = 6
+    per = -(-(len(rec) + len(_sc_selftests())) // lanes)
+    cases = []
+    for lane in range(lanes):                      # balance the table sizes over the parallel TLC runs
+        cases += [rec[k][0] for k in order[lane::lanes]]
+    meta = {c["id"]: m for c, m in rec}
+    rej = ctx.trace("Trace_MultiKneeScale", cases, selftest=_sc_selftests(), chunk=max(1, per))
+    cov = {"cases": len(rec), "judged_against_decomposition": 0, "sizes": sorted({m["n"] for _, m in rec}), "by_detector": {},
+           "shapes": sorted({m["shape"] for _, m in rec}), "max_knees": 0, "max_pending_ranges": 0, "max_table_entries": 0,
+           "t1": sorted({("tie" if isinstance(m["scale"][3], list) else str(m["scale"][3])) for _, m in rec}), "t2": sorted({m["t2"] for _, m in rec})}
+    for c, m in rec:
+        ctx.count(("S", m["scale"][1:5]), len(c["result"]) >= 2 and m["judged"])
+        cov["judged_against_decomposition"] += bool(m["judged"])
+        d = cov["by_detector"].setdefault(m["detector"], {"cases": 0, "max_n": 0, "max_knees": 0, "max_pending": 0})
+        d["cases"] += 1
+        d["max_n"] = max(d["max_n"], m["n"]); d["max_knees"] = max(d["max_knees"], m["knees"]); d["max_pending"] = max(d["max_pending"], m["pending"])
+        cov["max_knees"] = max(cov["max_knees"], m["knees"])
+        cov["max_pending_ranges"] = max(cov["max_pending_ranges"], m["pending"])
+        cov["max_table_entries"] = max(cov["max_table_entries"], m["entries"])
+    cov["wall_s"] = {"replay_and_oracle": round(t_rec, 1), "tlc": round(time.time() - t0 - t_rec, 1)}
+    ctx.extra["scale"] = cov
+    if cov["judged_against_decomposition"] * 10 < 8 * len(rec):
+        from harness import tlc
+        raise tlc.TLCFailure("scale family: only %d of %d cases could be judged against the decomposition" % (cov["judged_against_decomposition"], len(rec)))
+    ctx.note("scale family: %d calls, n %d..%d, up to %d knees / %d ranges pending at once / %d table entries; %d judged against the "
+             "decomposition (the rest: a gate within noise of t1 or a table beyond the cap; their ordering / range / termination clauses are judged)"
+             % (len(rec), cov["sizes"][0], cov["sizes"][-1], cov["max_knees"], cov["max_pending_ranges"], cov["max_table_entries"], cov["judged_against_decomposition"]))
+    for cid, vs in rej.items():
+        m = meta[cid]
+        if vs[0][0].startswith("MACHINERY"):
+            from harness import tlc
+            raise tlc.TLCFailure("Trace_MultiKneeScale: the recursive and the flat form of the decomposition disagree on %s: %s" % (m["scale"], vs[0]))
+        ctx.violation(vs[0][0], {"kind": "Tscale", "scale": m["scale"]},
+                      {"verdict": [str(v)[:200] for v in vs[0]], "detector": m["detector"], "n": m["n"], "t1": m["t1"], "t2": m["t2"],
+                       "diff": m.get("diff"), "error": m["error"]}, match="%s:%s" % (vs[0][0], m["detector"]))
+    big = max(rec, key=lambda cm: cm[1]["pending"])
+    ctx.sample({"binding": "T-scale", "call": {k: big[1][k] for k in ("scale", "t1", "n", "knees", "pending", "entries")}, "result": big[0]["result"]})
+
+
 def _harvest_t1(P, rng):
     import kneeliverse.linear_fit as lf
     n = len(P)
@@ -196,12 +536,21 @@ def run(ctx):
     ctx.rule = ("G: every recursion tree of the wrapper for n<=7 (quick) x t2 in 2..4 with detector answers in "
                 "0..len-2 or None, replayed with a synthetic detector; T: 5 bundled detectors x curves (5<=n<=16) x "
                 "t1 in {0, 1e-3, 0.05, harvested tie} x t2 in minimum..6 with K/C tables over all slices.  "
-                "non-trivial: the recursion goes at least two levels deep (>= 2 knees or a child slice examined)")
+                "non-trivial: the recursion goes at least two levels deep (>= 2 knees or a child slice examined).  "
+                "scale: the 5 bundled detectors on production-size curves (n from 257 to 10^5 just above 2^8..2^16, 10^4, 10^5; convex "
+                "piecewise-linear chains with thousands of knees and thousands of ranges pending at once, straight prefix + convex tail, "
+                "random-corner convex curves, staircases, miss-ratio-like curves, zigzags, spikes; reversed / negated; t1 in {0, 1e-5, 1e-3, "
+                "0.01, 0.05, a tie 2^-20 beside the SMAPE of the whole curve or of a first-level part}; t2 in minimum..6, 17, 130) judged by "
+                "Trace_MultiKneeScale against the same decomposition over a sparse table of the visited slices (gate = SMAPE definition, "
+                "answers = the detector's own single-knee entry point) plus ordering, range, interiority, step bound and termination")
     ctx.assumptions += numeric.ASSUMPTIONS + [
         "gate table C[l][r] = bit-exact comparison of lf.smape_points on the identical slice with t1",
         "K[l][r] = <detector>.knee(points[l:r]) with default options; a slice on which the detector raises is 'unknown' "
         "and a decomposition that needs it is not judged",
-        "Menger is exempt from strict interiority, as the property says"]
+        "Menger is exempt from strict interiority, as the property says",
+        "scale family: the gate of a slice is the SMAPE definition evaluated by the harness (fsum up to 2048 points, pairwise sum above); "
+        "a value within rel (1e-9 + 4 n eps) of t1 pins nothing and the decomposition below it is not judged; an input whose recursion "
+        "would cost more than the tier's work allowance is replayed with t1 raised thirtyfold (recorded as t1_raised)"]
     ctx.mc("MultiKnee", "MC_MultiKnee", need_actions=("PopSmall", "PopStraight", "PopDetect", "Finish"))
     if not ctx.quick:
         ctx.mc("MultiKnee", "MC_MultiKnee_12", timeout=3000)
@@ -253,6 +602,7 @@ def run(ctx):
                       {"verdict": vs[0], "error": m["error"]}, match="%s:%s" % (vs[0][0], m["detector"]))
     sm = next(c for c in cases if len(c["result"]) >= 2 and c["n"] <= 8)
     ctx.sample({"binding": "T", "call": meta[sm["id"]], "result": sm["result"]})
+    _run_scale(ctx)
 
 
 def replay(ctx, obj):
@@ -261,6 +611,11 @@ def replay(ctx, obj):
         for clause, detail in _replay_line(c["behaviour"]):
             if not clause.startswith("DRIFT:"):
                 ctx.violation(clause, c, detail)
+    elif c["kind"] == "Tscale":
+        case, m = _record_scale(tuple(c["scale"]))
+        rej = ctx.trace("Trace_MultiKneeScale", [case])
+        for cid, vs in rej.items():
+            ctx.violation(vs[0][0], c, {"verdict": [str(v)[:200] for v in vs[0]], "diff": m.get("diff"), "error": m["error"]})
     elif c["kind"] == "Tlong":
         case, m = _record_long(tuple(c["long"]))
         rej = ctx.trace("Trace_MultiKnee", [case])
